@@ -123,15 +123,15 @@ theorem readRows_roundtrip (ncol : Nat) (hpos : 0 < ncol) : ∀ (rows : List Lin
     simp only [List.nil_append] at ih
     exact ⟨s', by simp only [List.length_cons, readRows, h1, ih, Option.map_some]⟩
 
-/-- **Db round trip**: reading what `Db::_serialize` wrote gives back the same table -/
-theorem db_roundtrip (d : DbFile) (ncolT nechT : String)
+/-- the body of a Db (after the type tag) is read back from what `Db::_serialize` wrote -/
+theorem dbBody_roundtrip (d : DbFile) (ncolT nechT : String)
     (hn : parseCInt? ncolT = some (d.ncol : Int)) (he : parseCInt? nechT = some (d.nech : Int))
     (hnt : tokOK ncolT = true) (het : tokOK nechT = true)
     (hpos : 0 < d.ncol)
     (hl : d.locators.length = d.ncol ∧ ∀ t ∈ d.locators, tokOK t = true)
     (hm : d.names.length = d.ncol ∧ ∀ t ∈ d.names, tokOK t = true)
     (hr : d.rows.length = d.nech ∧ ∀ r ∈ d.rows, r.length = d.ncol ∧ ∀ t ∈ r, tokOK t = true) :
-    deserDb (serDbWith ncolT nechT d) = some d := by
+    deserDbBody ⟨[], (serDbWith ncolT nechT d).tail⟩ = some d := by
   have hlne : d.locators ≠ [] := by intro e; rw [e] at hl; simp at hl; omega
   have hmne : d.names ≠ [] := by intro e; rw [e] at hm; simp at hm; omega
   have c1 := tokOK_notComment ncolT hnt
@@ -146,12 +146,9 @@ theorem db_roundtrip (d : DbFile) (ncolT nechT : String)
   have hv2 := vec_roundtrip "Names" d.names []
     ([writeComment "Array of values"] ++ d.rows) d.ncol
     (by simp [isDataLine]) hmne hm.2 hm.1 (by decide)
-  have hDb : isComment "Db" = false := by decide +kernel
   have hHash : isComment "#" = true := by decide +kernel
-  unfold deserDb serDbWith
-  simp only [List.cons_append, List.nil_append]
-  rw [nextWord_data _ _ _ hDb]
-  simp only [show ("Db" : String) ≠ "Db" ↔ False by simp, if_false]
+  unfold deserDbBody serDbWith
+  simp only [List.cons_append, List.nil_append, List.tail_cons]
   generalize hT : (writeVec "Locators" d.locators ++ writeVec "Names" d.names ++
       [writeComment "Array of values"] ++ d.rows) = T
   rw [rec_roundtrip "Number of variables" ncolT [] _ hnt (by simp)]
@@ -174,9 +171,157 @@ theorem db_roundtrip (d : DbFile) (ncolT nechT : String)
   have hne0 : ¬ d.ncol = 0 := by omega
   simp only [hne0, if_false, hrows]
 
+/-- **Db round trip**: reading what `Db::_serialize` wrote gives back the same table -/
+theorem db_roundtrip (d : DbFile) (ncolT nechT : String)
+    (hn : parseCInt? ncolT = some (d.ncol : Int)) (he : parseCInt? nechT = some (d.nech : Int))
+    (hnt : tokOK ncolT = true) (het : tokOK nechT = true)
+    (hpos : 0 < d.ncol)
+    (hl : d.locators.length = d.ncol ∧ ∀ t ∈ d.locators, tokOK t = true)
+    (hm : d.names.length = d.ncol ∧ ∀ t ∈ d.names, tokOK t = true)
+    (hr : d.rows.length = d.nech ∧ ∀ r ∈ d.rows, r.length = d.ncol ∧ ∀ t ∈ r, tokOK t = true) :
+    deserDb (serDbWith ncolT nechT d) = some d := by
+  have hb := dbBody_roundtrip d ncolT nechT hn he hnt het hpos hl hm hr
+  have hDb : isComment "Db" = false := by decide +kernel
+  have hs : serDbWith ncolT nechT d = ["Db"] :: (serDbWith ncolT nechT d).tail := by simp [serDbWith]
+  rw [hs]
+  unfold deserDb
+  simp only [nextWord_data _ _ _ hDb]
+  simp only [show ("Db" : String) ≠ "Db" ↔ False by simp, if_false]
+  exact hb
+
+/-! ### DbGrid -/
+
+/-- reading one line `NX X0 DX ANGLE`, whatever precedes it on the current line being a comment -/
+theorem readDims_roundtrip : ∀ (dims : List (String × String × String × String)) (pre : Line) (rest : List Line),
+    (∀ t ∈ pre.head?, isComment t = true) →
+    (∀ q ∈ dims, tokOK q.1 = true ∧ tokOK q.2.1 = true ∧ tokOK q.2.2.1 = true ∧ tokOK q.2.2.2 = true) →
+    dims ≠ [] →
+    readDims dims.length ⟨pre, dims.map dimLine ++ rest⟩ = (dims, ⟨[], rest⟩)
+  | [], _, _, _, _, hne => absurd rfl hne
+  | q :: qs, pre, rest, hpre, hok, _ => by
+    obtain ⟨a, b, c, e⟩ := q
+    obtain ⟨ha, hb, hc, he⟩ := hok (a, b, c, e) List.mem_cons_self
+    have ca := tokOK_notComment a ha
+    have cb := tokOK_notComment b hb
+    have cc := tokOK_notComment c hc
+    have ce := tokOK_notComment e he
+    have r1 : readRec "0" ⟨pre, [a, b, c, e] :: (qs.map dimLine ++ rest)⟩ = (a, ⟨[b, c, e], qs.map dimLine ++ rest⟩) := by
+      unfold readRec
+      cases pre with
+      | nil => simp only [nextWord_nil, nextWord_data _ _ _ ca]
+      | cons p ps =>
+        have : isComment p = true := hpre p (by simp)
+        simp only [nextWord_comment _ _ _ _ this, nextWord_data _ _ _ ca]
+    have r2 : ∀ (t : String) (cur : Line) (rs : List Line), isComment t = false →
+        readRec "0" ⟨t :: cur, rs⟩ = (t, ⟨cur, rs⟩) := by
+      intro t cur rs ht
+      unfold readRec
+      simp only [nextWord_data _ _ _ ht]
+    simp only [List.length_cons, readDims, List.map_cons, dimLine, List.cons_append]
+    rw [r1]
+    simp only []
+    rw [r2 b _ _ cb]
+    simp only []
+    rw [r2 c _ _ cc]
+    simp only []
+    rw [r2 e _ _ ce]
+    simp only []
+    cases qs with
+    | nil => simp [readDims]
+    | cons q2 qs2 =>
+      have ih := readDims_roundtrip (q2 :: qs2) [] rest (by simp)
+        (fun q hq => hok q (List.mem_cons_of_mem _ hq)) (by simp)
+      simp only [List.length_cons] at ih
+      simp only [List.length_cons]
+      rw [ih]
+
+/-- **DbGrid round trip**: the grid header (space dimension, one line per dimension) and the table
+part written by `DbGrid::_serialize` are read back by `DbGrid::_deserialize` -/
+theorem grid_roundtrip (g : GridFile) (ndimT ncolT nechT : String)
+    (hd : parseCInt? ndimT = some (g.dims.length : Int)) (hdt : tokOK ndimT = true) (hdim : g.dims ≠ [])
+    (hok : ∀ q ∈ g.dims, tokOK q.1 = true ∧ tokOK q.2.1 = true ∧ tokOK q.2.2.1 = true ∧ tokOK q.2.2.2 = true)
+    (hnx : ∀ q ∈ g.dims, ∃ n : Int, parseCInt? q.1 = some n ∧ 0 < n)
+    (hn : parseCInt? ncolT = some (g.db.ncol : Int)) (he : parseCInt? nechT = some (g.db.nech : Int))
+    (hnt : tokOK ncolT = true) (het : tokOK nechT = true)
+    (hpos : 0 < g.db.ncol)
+    (hl : g.db.locators.length = g.db.ncol ∧ ∀ t ∈ g.db.locators, tokOK t = true)
+    (hm : g.db.names.length = g.db.ncol ∧ ∀ t ∈ g.db.names, tokOK t = true)
+    (hr : g.db.rows.length = g.db.nech ∧ ∀ r ∈ g.db.rows, r.length = g.db.ncol ∧ ∀ t ∈ r, tokOK t = true) :
+    deserGrid (serGridWith ndimT ncolT nechT g) = some g := by
+  have hb := dbBody_roundtrip g.db ncolT nechT hn he hnt het hpos hl hm hr
+  have hTag : isComment "DbGrid" = false := by decide +kernel
+  have hHash : isComment "#" = true := by decide +kernel
+  unfold deserGrid serGridWith
+  simp only [List.cons_append, List.nil_append]
+  rw [nextWord_data _ _ _ hTag]
+  simp only [show ("DbGrid" : String) ≠ "DbGrid" ↔ False by simp, if_false]
+  rw [rec_roundtrip "Space Dimension" ndimT [] _ hdt (by simp)]
+  simp only [hd]
+  have hnn : ¬ ((g.dims.length : Int) < 0) := by omega
+  simp only [hnn, if_false, Int.toNat_natCast]
+  -- the comment line is skipped by the first read of the loop
+  have hskip : ∀ (rest : List Line),
+      readDims g.dims.length ⟨"#" :: titleToks "Space Dimension", writeComment "Grid characteristics (NX,X0,DX,ANGLE)" :: (g.dims.map dimLine ++ rest)⟩
+        = (g.dims, ⟨[], rest⟩) := by
+    intro rest
+    cases hg : g.dims with
+    | nil => exact absurd hg hdim
+    | cons q qs =>
+      obtain ⟨a, b, c, e⟩ := q
+      have hq := hok (a, b, c, e) (by rw [hg]; exact List.mem_cons_self)
+      obtain ⟨ha, hb', hc, he'⟩ := hq
+      have ca := tokOK_notComment a ha
+      have cb := tokOK_notComment b hb'
+      have cc := tokOK_notComment c hc
+      have ce := tokOK_notComment e he'
+      have r1 : readRec "0" ⟨"#" :: titleToks "Space Dimension", writeComment "Grid characteristics (NX,X0,DX,ANGLE)" :: ([a, b, c, e] :: (qs.map dimLine ++ rest))⟩
+          = (a, ⟨[b, c, e], qs.map dimLine ++ rest⟩) := by
+        unfold readRec writeComment
+        rw [nextWord_comment _ _ _ _ hHash, nextWord_comment _ _ _ _ hHash, nextWord_data _ _ _ ca]
+      have r2 : ∀ (t : String) (cur : Line) (rs : List Line), isComment t = false →
+          readRec "0" ⟨t :: cur, rs⟩ = (t, ⟨cur, rs⟩) := by
+        intro t cur rs ht
+        unfold readRec
+        simp only [nextWord_data _ _ _ ht]
+      simp only [List.length_cons, readDims, List.map_cons, dimLine, List.cons_append]
+      rw [r1]
+      simp only []
+      rw [r2 b _ _ cb]
+      simp only []
+      rw [r2 c _ _ cc]
+      simp only []
+      rw [r2 e _ _ ce]
+      simp only []
+      cases qs with
+      | nil => simp [readDims]
+      | cons q2 qs2 =>
+        have ih := readDims_roundtrip (q2 :: qs2) [] rest (by simp)
+          (fun q hq => hok q (by rw [hg]; exact List.mem_cons_of_mem _ hq)) (by simp)
+        simp only [List.length_cons] at ih
+        simp only [List.length_cons]
+        rw [ih]
+  rw [hskip]
+  simp only []
+  simp only [hb, Option.map_some]
+  split
+  · rename_i hc
+    exfalso
+    rw [List.any_eq_true] at hc
+    obtain ⟨q, hq, hv⟩ := hc
+    obtain ⟨n, hp, hpos'⟩ := hnx q hq
+    simp only [hp] at hv
+    simp at hv; omega
+  · cases g; rfl
+
 /-! non-vacuity: a 2×2 table with an undefined cell -/
 def ex : DbFile := ⟨2, 2, ["x1", "z1"], ["east", "grade"], [["1", "NA"], ["2.5", "7"]]⟩
 example : deserDb (serDbWith "2" "2" ex) = some ex := by decide +kernel
+/-- a 2 x 1 grid holding one variable -/
+def exg : GridFile := ⟨[("2", "0", "1", "0"), ("1", "0.5", "2", "30")], ⟨1, 2, ["z1"], ["grade"], [["3"], ["NA"]]⟩⟩
+example : deserGrid (serGridWith "2" "1" "2" exg) = some exg := by decide +kernel
+/-- a grid file announcing a non-positive number of nodes is rejected -/
+example : deserGrid (serGridWith "1" "1" "2" ⟨[("0", "0", "1", "0")], ⟨1, 2, ["z1"], ["grade"], [["3"], ["NA"]]⟩⟩) = none := by
+  decide +kernel
 /-- a name containing a blank is split into two tokens by the tokeniser: the file is rejected -/
 example : deserDb (serDbWith "2" "1" ⟨2, 1, ["x1", "z1"], ["east", "my", "var"], [["1", "2"]]⟩) = none := by decide +kernel
 
